@@ -88,11 +88,11 @@ def run(task):
             # non-initial states: a neighbouring continuum was aligned before (another dissimilarity), then turned
             # into this one by add / remove / add_annotator / in-place merge (rotating)
             k = len(res["state_set"])
-            if k % 3 == 0:
+            if k % 4 == 0:
                 wrec = {"k": "pos", "de": 0.35} if recipe["k"] != "pos" else {"k": "comb", "a": 1.0, "b": 1.0, "de": 1.0}
-                if (k // 12) % 2 == 0:
+                if (k // 16) % 2 == 0:
                     wrec = recipe  # the earlier alignment used the very same dissimilarity object
-                warm = {"recipe": wrec, "how": A.WARM_KINDS[(k // 3) % len(A.WARM_KINDS)]}
+                warm = {"recipe": wrec, "how": A.WARM_KINDS[(k // 4) % len(A.WARM_KINDS)]}
                 be = "cbc" if A.cbc_available() else "glpk_noimport"
                 obs = A.eval_case(spec, recipe, be, KIND, warm=warm)
                 res["evaluations"] += 1
